@@ -132,49 +132,55 @@ Proof.
   apply kv_get_none_in. rewrite map_app. unfold kk at 1 in H2. cbn [fst] in H2. rewrite Ek in H2. exact H2.
 Qed.
 
-(* ---- unique keys in every table ------------------------------------------------------------------------------- *)
-Fixpoint uk (t : tbl) {struct t} : Prop :=
-  match t with
-  | Tbl items _ _ _ _ _ =>
-    NoDup (map kk items) /\
-    (fix go (l : list (key * item)) : Prop := match l with [] => True | (_, it) :: tl => uki it /\ go tl end) items
-  end
-with uki (it : item) {struct it} : Prop :=
-  match it with
-  | ITable sub => uk sub
-  | IAot ts _ => (fix goa (l : list tbl) : Prop := match l with [] => True | sub :: tl => uk sub /\ goa tl end) ts
-  | _ => True
-  end.
-Definition uks (items : list (key * item)) : Prop := Forall (fun kv => uki (snd kv)) items.
+Definition is_tab (it : item) : bool := match it with IValue _ => false | _ => true end.
 
-Lemma uk_eq t : uk t <-> NoDup (map kk (t_items t)) /\ uks (t_items t).
-Proof.
-  destruct t as [items d im dt pos sp]. cbn [uk t_items]. unfold uks.
-  assert (H : (fix go (l : list (key * item)) : Prop := match l with [] => True | (_, it) :: tl => uki it /\ go tl end) items
-              <-> Forall (fun kv => uki (snd kv)) items).
-  { induction items as [|[k it] tl IH]; [split; [constructor|auto]|]. rewrite Forall_cons_iff, <- IH. reflexivity. }
-  rewrite H. reflexivity.
-Qed.
-Lemma uki_aot ts sp : uki (IAot ts sp) <-> Forall uk ts.
-Proof. cbn [uki]. induction ts as [|t tl IH]; [split; [constructor|auto]|]. rewrite Forall_cons_iff, <- IH. reflexivity. Qed.
+(* ---- the invariants of every table of the tree: unique keys; a table that exists only as a
+   super-table holds no values; the keys of tables satisfy K (they were read from headers) ------------------- *)
+Section UK.
+  Variable K : key -> Prop.
+  Fixpoint uk (t : tbl) {struct t} : Prop :=
+    match t with
+    | Tbl items _ im _ _ _ =>
+      NoDup (map kk items) /\ (im = true -> vals items = []) /\
+      (fix go (l : list (key * item)) : Prop := match l with [] => True | (k, it) :: tl => (is_tab it = true -> K k) /\ uki it /\ go tl end) items
+    end
+  with uki (it : item) {struct it} : Prop :=
+    match it with
+    | ITable sub => uk sub
+    | IAot ts _ => (fix goa (l : list tbl) : Prop := match l with [] => True | sub :: tl => uk sub /\ goa tl end) ts
+    | _ => True
+    end.
+  Definition uks (items : list (key * item)) : Prop := Forall (fun kv => (is_tab (snd kv) = true -> K (fst kv)) /\ uki (snd kv)) items.
 
-Lemma uks_get m k k0 it : uks m -> kv_get m k = Some (k0, it) -> uki it.
-Proof.
-  intros Hu Hg. destruct (kv_get_split m k k0 it Hg) as (A & B & -> & _). unfold uks in Hu. apply Forall_app in Hu as [_ Hu].
-  inversion Hu; subst. assumption.
-Qed.
-Lemma uks_set m k it : uks m -> uki it -> uks (kv_set m k it).
-Proof.
-  unfold uks. induction m as [|[k1 v1] m IH]; intros Hu Hi; [constructor|]. cbn [kv_set]. inversion Hu; subst.
-  destruct (bytes_eqb (k_key k1) k); constructor; auto.
-Qed.
-Lemma uks_push m k it : uks m -> uki it -> uks (kv_push m k it).
-Proof. intros Hu Hi. apply Forall_app. split; [exact Hu|constructor; [exact Hi|constructor]]. Qed.
-Lemma uks_remove m k : uks m -> uks (kv_remove m k).
-Proof.
-  unfold uks. induction m as [|[k1 v1] m IH]; intro Hu; [constructor|]. cbn [kv_remove]. inversion Hu; subst.
-  destruct (bytes_eqb (k_key k1) k); [assumption|constructor; auto].
-Qed.
+  Lemma uk_eq t : uk t <-> NoDup (map kk (t_items t)) /\ (t_implicit t = true -> vals (t_items t) = []) /\ uks (t_items t).
+  Proof.
+    destruct t as [items d im dt pos sp]. cbn [uk t_items t_implicit]. unfold uks.
+    assert (H : (fix go (l : list (key * item)) : Prop := match l with [] => True | (k, it) :: tl => (is_tab it = true -> K k) /\ uki it /\ go tl end) items
+                <-> Forall (fun kv => (is_tab (snd kv) = true -> K (fst kv)) /\ uki (snd kv)) items).
+    { induction items as [|[k it] tl IH]; [split; [constructor|auto]|]. rewrite Forall_cons_iff, <- IH. cbn [fst snd]. tauto. }
+    rewrite H. reflexivity.
+  Qed.
+  Lemma uki_aot ts sp : uki (IAot ts sp) <-> Forall uk ts.
+  Proof. cbn [uki]. induction ts as [|t tl IH]; [split; [constructor|auto]|]. rewrite Forall_cons_iff, <- IH. reflexivity. Qed.
+
+  Lemma uks_get m k k0 it : uks m -> kv_get m k = Some (k0, it) -> (is_tab it = true -> K k0) /\ uki it.
+  Proof.
+    intros Hu Hg. destruct (kv_get_split m k k0 it Hg) as (A & B & -> & _). unfold uks in Hu. apply Forall_app in Hu as [_ Hu].
+    inversion Hu; subst. assumption.
+  Qed.
+  Lemma uks_set m k k0 it0 it : uks m -> kv_get m k = Some (k0, it0) -> (is_tab it = true -> K k0) -> uki it -> uks (kv_set m k it).
+  Proof.
+    intros Hu Hg Hk Hi. destruct (kv_get_split m k k0 it0 Hg) as (A & B & -> & _ & Hs & _). rewrite Hs. unfold uks in *.
+    apply Forall_app in Hu as [HA HB]. inversion HB; subst. apply Forall_app. split; [exact HA|]. constructor; [split; assumption|assumption].
+  Qed.
+  Lemma uks_push m k it : uks m -> (is_tab it = true -> K k) -> uki it -> uks (kv_push m k it).
+  Proof. intros Hu Hk Hi. apply Forall_app. split; [exact Hu|constructor; [split; assumption|constructor]]. Qed.
+  Lemma uks_remove m k : uks m -> uks (kv_remove m k).
+  Proof.
+    unfold uks. induction m as [|[k1 v1] m IH]; intro Hu; [constructor|]. cbn [kv_remove]. inversion Hu; subst.
+    destruct (bytes_eqb (k_key k1) k); [assumption|constructor; auto].
+  Qed.
+End UK.
 
 (* ---- only table entries change ---------------------------------------------------------------------------------- *)
 Definition frame (t t' : tbl) : Prop :=
@@ -186,8 +192,6 @@ Proof. repeat split. Qed.
 
 Lemma frame_own t t' a : frame t t' -> own t' a = own t a.
 Proof. intros (H1 & H2 & H3 & H4 & H5 & H6). unfold own, sec_of, no_vals. rewrite H1, H2, H4, H5, H6. reflexivity. Qed.
-
-Definition is_tab (it : item) : bool := match it with IValue _ => false | _ => true end.
 
 Lemma vals_app a b : vals (a ++ b) = vals a ++ vals b.
 Proof. apply flat_map_app. Qed.
@@ -281,27 +285,40 @@ Proof.
     rewrite <- !app_assoc. apply Permutation_app_head, Permutation_app_head, IH; assumption.
 Qed.
 
-Lemma uk_implicit0 : uk implicit0.
-Proof. apply uk_eq. split; [constructor|constructor]. Qed.
+Section CtxUK.
+  Variable K : key -> Prop.
 
-Lemma uk_set_items t m : NoDup (map kk m) -> uks m -> uk (t_set_items t m).
-Proof. intros H1 H2. apply uk_eq. rewrite t_items_set. auto. Qed.
+  Lemma uk_implicit0 : uk K implicit0.
+  Proof. apply uk_eq. split; [constructor|]. split; [reflexivity|constructor]. Qed.
 
-Lemma ctx_uk p r r' par par' : ctx_rel p r r' par par' -> uk r -> uk par /\ (uk par' -> uk r').
-Proof.
-  induction 1 as [t t'|t k p sub par par' G Hc IH|t k p k0 sub sub' par par' G Hc IH|t k p k0 ts sp last rinit last' par par' G Er Hc IH]; intro Hu.
-  - auto.
-  - destruct (IH uk_implicit0) as [H1 H2]. split; [exact H1|]. intro Hp. apply uk_eq in Hu as [Hn Hs].
-    apply uk_set_items; [apply nodup_push; assumption|apply uks_push; [exact Hs|apply H2, Hp]].
-  - apply uk_eq in Hu as [Hn Hs]. pose proof (uks_get _ _ _ _ Hs G) as Hsub. destruct (IH Hsub) as [H1 H2]. split; [exact H1|]. intro Hp.
-    apply uk_set_items; [rewrite keys_set; exact Hn|apply uks_set; [exact Hs|apply H2, Hp]].
-  - apply uk_eq in Hu as [Hn Hs]. pose proof (uks_get _ _ _ _ Hs G) as Hsub. apply uki_aot in Hsub.
-    assert (Ets : ts = rev rinit ++ [last]) by (rewrite <- (rev_involutive ts), Er; reflexivity).
-    rewrite Ets in Hsub. apply Forall_app in Hsub as [Hinit Hlast]. inversion Hlast as [|? ? Hl0 _]; subst.
-    destruct (IH Hl0) as [H1 H2]. split; [exact H1|]. intro Hp.
-    apply uk_set_items; [rewrite keys_set; exact Hn|apply uks_set; [exact Hs|]]. apply uki_aot. cbn [rev]. apply Forall_app. split; [exact Hinit|].
-    constructor; [apply H2, Hp|constructor].
-Qed.
+  Lemma uk_set_items t m : NoDup (map kk m) -> vals m = vals (t_items t) -> uk K t -> uks K m -> uk K (t_set_items t m).
+  Proof.
+    intros H1 Hv Hu H2. apply uk_eq in Hu as (_ & Him & _). apply uk_eq. rewrite t_items_set. split; [exact H1|]. split; [|exact H2].
+    destruct t. cbn [t_set_items t_implicit t_items] in *. rewrite Hv. exact Him.
+  Qed.
+
+  Lemma ctx_uk p r r' par par' : ctx_rel p r r' par par' -> Forall K p -> uk K r -> uk K par /\ (uk K par' -> uk K r').
+  Proof.
+    induction 1 as [t t'|t k p sub par par' G Hc IH|t k p k0 sub sub' par par' G Hc IH|t k p k0 ts sp last rinit last' par par' G Er Hc IH]; intros HK Hu.
+    - auto.
+    - inversion HK as [|? ? Hk HK']; subst. destruct (IH HK' uk_implicit0) as [H1 H2]. split; [exact H1|]. intro Hp.
+      pose proof Hu as Hu0. apply uk_eq in Hu as (Hn & Him & Hs).
+      apply uk_set_items; [apply nodup_push; assumption|apply vals_push_tab; reflexivity|exact Hu0|].
+      apply uks_push; [exact Hs|intros _; exact Hk|apply H2, Hp].
+    - inversion HK as [|? ? Hk HK']; subst. pose proof Hu as Hu0. apply uk_eq in Hu as (Hn & Him & Hs).
+      destruct (uks_get K _ _ _ _ Hs G) as [Hk0 Hsub]. destruct (IH HK' Hsub) as [H1 H2]. split; [exact H1|]. intro Hp.
+      apply uk_set_items; [rewrite keys_set; exact Hn|apply (vals_set _ _ _ _ _ G); reflexivity|exact Hu0|].
+      apply (uks_set K _ _ _ _ _ Hs G); [intros _; apply Hk0; reflexivity|apply H2, Hp].
+    - inversion HK as [|? ? Hk HK']; subst. pose proof Hu as Hu0. apply uk_eq in Hu as (Hn & Him & Hs).
+      destruct (uks_get K _ _ _ _ Hs G) as [Hk0 Hsub]. apply uki_aot in Hsub.
+      assert (Ets : ts = rev rinit ++ [last]) by (rewrite <- (rev_involutive ts), Er; reflexivity).
+      rewrite Ets in Hsub. apply Forall_app in Hsub as [Hinit Hlast]. inversion Hlast as [|? ? Hl0 _]; subst.
+      destruct (IH HK' Hl0) as [H1 H2]. split; [exact H1|]. intro Hp.
+      apply uk_set_items; [rewrite keys_set; exact Hn|apply (vals_set _ _ _ _ _ G); reflexivity|exact Hu0|].
+      apply (uks_set K _ _ _ _ _ Hs G); [intros _; apply Hk0; reflexivity|]. apply uki_aot. cbn [rev]. apply Forall_app. split; [exact Hinit|].
+      constructor; [apply H2, Hp|constructor].
+  Qed.
+End CtxUK.
 
 (* the table reached through a path that exists *)
 Fixpoint reach (t : tbl) (p : list key) : option tbl :=
